@@ -579,8 +579,16 @@ func c19ManyKeys(r *rand.Rand) *c19Node {
 	return a
 }
 
-func c19GenCase(r *rand.Rand, i int) (*c19Node, string) {
-	switch k := r.Intn(100); {
+// thin: the thorough tier draws many more values; the classes whose cost is dominated by the size of one
+// value (sized, manykeys, deep, large: 15 % of the quick stream and 95 % of its time, mostly the byte-list
+// model on 64 KiB values) are kept at about 1.5x their quick number, the rest of the budget goes to
+// primitives and trees.
+func c19GenCase(r *rand.Rand, i int, thin bool) (*c19Node, string) {
+	k := r.Intn(100)
+	if thin && k >= 30 && k < 45 && r.Intn(20) >= 3 {
+		k = 45 + r.Intn(55)
+	}
+	switch {
 	case k < 30:
 		return c19RandPrim(r, true), "primitive"
 	case k < 34:
@@ -1153,22 +1161,23 @@ const c19Rule = "codec: random variant value trees (21 primitive kinds with boun
 	"insertion-ordered value text; non-trivial = container, string, binary or decimal (or any malformed input). " +
 	"shredding: random shredding schemas (none/primitive/list/object, depth <= 3, 19 leaf types) x rows aimed at the schema " +
 	"(matches, type mismatches, residual and missing fields, decimals around the precision bound) x 6 write paths, each file " +
-	"read through 4 read paths; the same with the variant column below repeated / repeated-repeated / optional / optional-repeated " +
-	"ancestors (several occurrences per row, LIST and object-with-LIST typed_value, first occurrence an array of >= 2 elements, " +
+	"read through 4 read paths; the same with the variant column below repeated / repeated-repeated / optional / optional-repeated / repeated-optional " +
+	"ancestors (several occurrences per row, null occurrences between them, LIST and object-with-LIST typed_value, first occurrence an array of >= 2 elements, " +
 	"with and without null/empty ancestors; 5 write x 4 read paths); every top-level file also read through the columnar " +
-	"VariantReader and through 4 evolved reader schemas (columns added before/between/after the variant, id dropped); larger files with " +
+	"VariantReader (rows rebuilt from the shredded cursors, and every path occurring in the values - in the shredding schema or not - " +
+	"plus an absent name navigated by Field/Elements, with only those cursors projected and with the whole tree projected) and through 4 evolved reader schemas (columns added before/between/after the variant, id dropped); larger files with " +
 	"dictionary-encoded typed_value leaves, small DictionaryMaxBytes/PageBufferSize, several row groups, page v1/v2 read through " +
 	"VariantReader with 3 window sizes; the (definition level, repetition level, value) cells of every leaf column of these files " +
 	"compared with the level mirror; foreign-style files written cell by cell (raw parquet.Row values from the level mirror) with " +
 	"16-byte DECIMAL typed_value leaves laid out as minimal-length / sign-padded BYTE_ARRAY or FIXED_LEN_BYTE_ARRAY(n <= 16) " +
-	"(values of 1..16 significant bytes whose sign and low-byte top bit are independent), top-level and below the 4 ancestor shapes, " +
+	"(values of 1..16 significant bytes whose sign and low-byte top bit are independent), top-level and below the 5 ancestor shapes, " +
 	"read through every read path; distinct by schema + write path + row texts; " +
 	"non-trivial = the column has a typed_value or sits below an optional/repeated ancestor"
 
 func RunC19Codec(ctx *core.Ctx) {
 	ctx.SetRule(c19Rule)
 	nw := 8
-	total := ctx.Scale(20000, 400000)
+	total := ctx.Scale(20000, 200000)
 	var wg sync.WaitGroup
 	var mu sync.Mutex
 	var malformed []c19Malformed
@@ -1216,7 +1225,7 @@ func RunC19Codec(ctx *core.Ctx) {
 			var local []c19Malformed
 			pendingBytes := 0
 			for i := 0; i < total/nw; i++ {
-				n, class := c19GenCase(r, i)
+				n, class := c19GenCase(r, i, ctx.Thorough())
 				if w == 0 && i < 3 {
 					ctx.Sample(map[string]any{"value": c19Trunc(n.String()), "class": class})
 				}
